@@ -51,9 +51,9 @@ def Prog(name, ctl, ins):
     return dict(name=name, ctl=list(ctl), ins=list(ins))
 
 
-def Ctl(n, r, d, w=1):
+def Ctl(n, r, d, w=1, lag=0):
     """control parameter; w > 1: array-valued (tuple default ((d + ch) % 7 for ch < w), w slots under one name)"""
-    return dict(n=n, r=r, d=d, w=w)
+    return dict(n=n, r=r, d=d, w=w, lag=lag)
 
 
 # ------------------------------------------------------------------ programs enumerated by TLC
@@ -165,7 +165,7 @@ def nontrivial(prog):
 
 # ------------------------------------------------------------------ seeded random programs for C02 / C20
 CTL_POOL = [('freq', 1, 440), ('amp', 1, 1), ('gate', 1, 1), ('bus', 1, 0), ('t_trig', 3, 0), ('ain', 2, 0),
-            ('irv', 0, 2), ('pan', 1, 0), ('out', 1, 0), ('amps', 1, 2, 3), ('freqs', 1, 1, 5), ('iarr', 0, 3, 2)]
+            ('irv', 0, 2), ('pan', 1, 0), ('out', 1, 0), ('amps', 1, 2, 3), ('freqs', 1, 1, 5), ('iarr', 0, 3, 2), ('lagk', 1, 2, 1, 2)]
 
 
 def random_program(rnd, n, name, *, wf=True, mce=True, bad=None, variants=False):
@@ -447,6 +447,33 @@ def array_control_program(rnd, name, total):
     for _ in range(rnd.randint(1, 6)):
         j = rnd.randrange(nnames)
         picks.append(Pm(j + 1, rnd.randrange(widths[j])))
+    for o in picks:
+        ins.append(Bin(rnd.choice(['*', '+']), R(len(ins)), o))
+    ins.append(Gen('Out', 2, [C(0), R(len(ins))], 0))
+    return Prog(name, ctl, ins)
+
+
+def lag_control_program(rnd, name, total):
+    """control-rate parameters totalling `total` channels (around the 16-channel clumps of LagControl: 15, 16, 17, 32, 33
+    ...), at least one of them with a lag, optionally next to scalar / audio / trigger parameters; the body reads the
+    first and last channel of every control-rate parameter and some random ones"""
+    nk = min(rnd.randint(1, 4), total)
+    widths = [1] * nk
+    for _ in range(total - nk):
+        widths[rnd.randrange(nk)] += 1
+    lags = [rnd.choice([0, 0, 1, 2, 5]) for _ in range(nk)]
+    if not any(lags):
+        lags[rnd.randrange(nk)] = rnd.choice([1, 3])
+    ctl = [Ctl('lk%d' % j, 1, rnd.randint(0, 6), widths[j], lags[j]) for j in range(nk)]
+    for extra in rnd.sample([('ir0', 0, 2), ('ar0', 2, 0), ('tr0', 3, 0)], rnd.randint(0, 2)):
+        ctl.insert(rnd.randint(0, len(ctl)), Ctl(*extra))
+    ins = [Gen('SinOsc', 2, [C(440), C(0)])]
+    picks = []
+    for j, c in enumerate(ctl):
+        if c['r'] == 1:
+            picks += [Pm(j + 1, 0), Pm(j + 1, c['w'] - 1), Pm(j + 1, rnd.randrange(c['w']))]
+        else:
+            picks.append(Pm(j + 1, 0))
     for o in picks:
         ins.append(Bin(rnd.choice(['*', '+']), R(len(ins)), o))
     ins.append(Gen('Out', 2, [C(0), R(len(ins))], 0))
